@@ -90,6 +90,12 @@ class Catalogue:
                     params = [q for q in func.params if q != "self"]
                     for q in params:
                         binds[q] = ("param", q)
+                    if isinstance(tgt, tuple) and tgt[0] == "func":
+                        # a module-level function armed with the protocol among its arguments (functools.partial(f, self, request)):
+                        # the parameter that receives the protocol is the protocol
+                        for q, av in zip(params, e.a.get("args") or ()):
+                            if av == SELF:
+                                binds[q] = SELF
                     recv = getattr(self, "_receivers", {}).get(key, SELF)
                     paths = eng.entry_paths(func, binds, selfterm=recv) if outer is None else self._closure_paths(func, outer)
                     ne = Entry("TIMER", func.qual, func, paths, self.cls)
@@ -109,6 +115,8 @@ class Catalogue:
             if tgt[0] == "closure":
                 env, selfterm, fi = self.eng._closure_env[tgt[2]]
                 return fi.qual, fi, env
+            if tgt[0] == "func" and getattr(tgt[1], "cls", None) is None and getattr(tgt[1], "parent", None) is None:
+                return tgt[1].qual, tgt[1], None
         return None, None, None
 
     def _closure_paths(self, func, env):
